@@ -170,7 +170,7 @@ def doc_pairs():
 NEUTRAL = ['CC(=O)[O-].[Na+]', 'C[NH3+].[Cl-]', '[O-]c1ccccc1', '[NH3+]CC([O-])=O', 'C[N+](C)(C)C.[OH-]', 'CC(=O)[O-]', 'C[NH3+]', 'CS(=O)(=O)[O-].[K+]', 'c1cc[nH+]cc1',
            '[O-]C(=O)CC[NH3+]', 'OP(=O)([O-])[O-].[Na+].[Na+]', 'C[S-]', 'CC#[C-].[Li+]', 'C[O-].[Na+]', '[NH4+].[Cl-]', 'Nc1cc[nH+]cc1', 'OC(=O)CC(=O)[O-]']
 HYDRO = ['[2H]C([2H])O', '[2H]O[2H]', '[3H]c1ccccc1', 'C[2H]', '[H]C([H])([H])O', '[H]c1ccccc1', '[H][H]', '[2H][H]', '[H]N([H])C(C)=O', '[H]OC(=O)C[N+]([H])([H])[H]', 'C[C@]([H])(N)O', '[H][C@]1(C)CCCO1', '[H][C@@]12CCCC[C@]1([H])CCCC2', 'F/C=C/[H]', '[H]/C(F)=C(/[H])Cl', 'N[C@@H]1CC[C@H](O)CC1', '[H]/C(C)=C(/[H])C', 'C[C@H]1CCCO1']
-RESON = ['Cc1c[nH]c(\\C=C\\2/C(=O)Nc3ccccc23)c1CCC(=O)O', 'C/C=C/C(=O)C', 'CC(=O)/C=C/c1ccccc1', 'C/C=C/C=C/C(C)=O', 'O=C1CCCC[C@@H]1C', 'C[C@H](C(C)=O)CC', 'C[N+](=O)[O-]', 'CN(=O)=O', 'C[N+](C)=CC=C[CH-]C', 'C=[N+]=[N-]', '[CH2-]C=[N+](C)C', 'C[S+]([O-])C', 'O=C1C=CC(=O)C=C1', 'CC(=O)C', 'OC=CC', 'Oc1ncccc1', 'O=c1cccc[nH]1',
+RESON = ['C[n+]1cc[nH]c1CC', 'Cn1cc[nH+]c1CC', 'CCC1=[NH+]C=CN1C', 'Cn1c[n+](CC)cc1', 'C[n+]1cc[nH]c1', 'CCc1[nH]cc[n+]1C', 'C[n+]1ccn(C)c1C', 'Cc1[nH]cc[nH+]1', 'Cc1cc[nH+][nH]1', 'Cc1c[nH]c(\\C=C\\2/C(=O)Nc3ccccc23)c1CCC(=O)O', 'C/C=C/C(=O)C', 'CC(=O)/C=C/c1ccccc1', 'C/C=C/C=C/C(C)=O', 'O=C1CCCC[C@@H]1C', 'C[C@H](C(C)=O)CC', 'C[N+](=O)[O-]', 'CN(=O)=O', 'C[N+](C)=CC=C[CH-]C', 'C=[N+]=[N-]', '[CH2-]C=[N+](C)C', 'C[S+]([O-])C', 'O=C1C=CC(=O)C=C1', 'CC(=O)C', 'OC=CC', 'Oc1ncccc1', 'O=c1cccc[nH]1',
          'Oc1nc(O)ccn1', 'CC(O)=CC(C)=O', 'N=C(N)N', 'NC(N)=[NH2+]', 'C[n+]1ccccc1[O-]', 'Cc1[nH]cnc1', 'c1cnc[nH]1', 'OC1=CC=CC=C1', 'CC(=N)O', 'CN=C(C)O', 'C1=CC=CC=C1',
          '[Fe+2].c1cc[cH-]c1.c1cc[cH-]c1', 'C[N+]1=CN(C)C=C1', 'Cn1cc[n+](C)c1', '[O-][n+]1ccccc1', 'C[P+](C)(C)[CH2-]', 'CS(C)(=O)=O', 'OS(=O)O', 'O=[N+]([O-])c1ccccc1']
 
